@@ -262,8 +262,19 @@ def run(ctx, rep):
         it_src += [x for x in rules.origin_calls(ca, mir.op_local(c.args[0])) if "iter" in x.callee()]
     comp_in_closure = any(g is not ca and g.calls_to("compiler::ast::Compile::compile") for g in bodies)
     okargs = bool(fm) and bool(col) and not revs and comp_in_closure and bool(it_src)
-    rep.ob("C15.order", "`f(a1, a2, ..)`: the arguments are compiled in list order (arguments.iter() -> flat_map(compile) -> collect, no reversal)",
-           "ok" if okargs else "violated", "flat_map/map=%d collect=%d reversals=%d compile-in-closure=%s" % (len(fm), len(col), len(revs), comp_in_closure),
+    # the other spelling: a `for` loop over arguments.iter() that compiles each argument and appends its code (no reversal anywhere)
+    loop_next = [c for c in ca.calls() if c.matches(NEXT)]
+    appended = [c for c in ca.calls() if c.matches(("alloc::vec::Vec::append", "alloc::vec::Vec::extend", "core::iter::traits::collect::Extend::extend", "alloc::vec::Vec::extend_from_slice"))]
+    comp_in_body = bool(ca.calls_to("compiler::ast::Compile::compile"))
+    loop_src = []
+    for c in loop_next:
+        loop_src += [x for x in rules.origin_calls(ca, mir.op_local(c.args[0]), transparent=rules.TRANSPARENT | {"core::iter::traits::collect::IntoIterator::into_iter"})
+                     if "iter" in x.callee()]
+    okloop = bool(loop_next) and bool(loop_src) and comp_in_body and bool(appended) and not revs and any(
+        c.bb in ca.reachable(n_.target) for n_ in loop_next if n_.target is not None for c in ca.calls_to("compiler::ast::Compile::compile"))
+    rep.ob("C15.order", "`f(a1, a2, ..)`: the arguments are compiled in list order (arguments.iter() folded front to back into one code vector, no reversal)",
+           "ok" if (okargs or okloop) else "violated",
+           "flat_map/map=%d collect=%d | loop next()=%d appends=%d | reversals=%d" % (len(fm), len(col), len(loop_next), len(appended), len(revs)),
            ca.span, fn=ca.path, key="C15.order|call-arguments")
     n += statements_emit_their_expression(F, rep, "C15.once")
     rep.floor("C15.emitted sequences read", n, 40)
